@@ -18,7 +18,7 @@ pub fn run(w: &mut W) {
         }
         let _ = w.begin_case(crate::worker::ONEOFF + j as u64, name);
         w.rep.count(&format!("extreme.{}", name), 1);
-        let h = super::common::History { family: "ext", parsers: vec![super::common::Allowed::Default], ops: bufs.into_iter().map(|b| (0usize, b)).collect() };
+        let h = super::common::History { family: "ext", parsers: vec![super::common::Allowed::Default], ops: bufs.into_iter().map(|b| (0usize, b)).collect(), reconf: vec![] };
         account_history(w, h);
     }
     for idx in w.indices() {
@@ -34,7 +34,8 @@ fn account_history(w: &mut W, h: super::common::History) {
         sut.parsers = make_parsers(&h);
         let mut shape = String::from(h.family);
         let mut nontrivial = false;
-        for (p, b) in &h.ops {
+        for (i, (p, b)) in h.ops.iter().enumerate() {
+            h.reconfigure(i, &mut sut);
             let r = catch_unwind(AssertUnwindSafe(|| sut.parse(*p, b)));
             let res = match r {
                 Ok(r) => r,
